@@ -8,8 +8,10 @@ package cwriter
 // (16-byte buffer holding ESC [ ); the other fields are plain assignments in New.
 //@ typeinv Writer self.Buffer != nil && self.termSize != nil && self.ew == "\x1b[" && self.out != nil
 
+// terminal sizes reported by the OS are assumed to be within [0, 2^31]
 //@ functype cwriter_Writer.termSize
 //@   modifies nothing
+//@   ensures  0 <= result0 && result0 <= 1<<31 && 0 <= result1 && result1 <= 1<<31
 
 //@ func (escWriter).ansiCuuAndEd
 //@   props    C04 C02
@@ -37,10 +39,11 @@ package cwriter
 //@   props    C04 C02
 //@   requires w != nil
 //@   modifies nothing
+//@   ensures  0 <= width && width <= 1<<31 && 0 <= height && height <= 1<<31
 
 // New is not verified (copy into a byte slice is outside the string model): its contract is
 // assumed and listed as such.
 //@ func New
 //@   props    C04 C02
 //@   trusted
-//@   ensures  result != nil && fresh(result) && result.Buffer != nil && result.out == out && result.termSize != nil
+//@   ensures  result != nil && fresh(result) && result.Buffer != nil && result.out == out && result.termSize != nil && wkey(result.out) != result.Buffer
